@@ -203,6 +203,42 @@ func regionFuncs(fn *ssa.Function) []*ssa.Function {
 	return out
 }
 
+// allowedVia: fn's top-level function is allowed, or it is new since the anchor
+// snapshot and every function calling it is (recursively, three levels) — code
+// moved out of allowed functions into a shared helper stays allowed.
+func allowedVia(p *Prog, fn *ssa.Function, allowed func(*ssa.Function) bool) bool {
+	return allowedViaRec(p, TopFunc(fn), allowed, 0)
+}
+
+func allowedViaRec(p *Prog, top *ssa.Function, allowed func(*ssa.Function) bool, depth int) bool {
+	if allowed(top) {
+		return true
+	}
+	if depth >= 3 || !IsNewFunc(top) || top.Pkg == nil {
+		return false
+	}
+	n := 0
+	for f := range p.AllFuncs {
+		if TopFunc(f).Pkg != top.Pkg {
+			continue
+		}
+		for _, ci := range CallsIn(f) {
+			if CalleeFunc(ci.Common()) != top {
+				continue
+			}
+			caller := TopFunc(f)
+			if caller == top {
+				continue
+			}
+			n++
+			if !allowedViaRec(p, caller, allowed, depth+1) {
+				return false
+			}
+		}
+	}
+	return n > 0
+}
+
 // newHelperReturns: when v is a result of a call of a function new since the
 // anchor snapshot, what that function returns in that position (the producing
 // code was extracted); nil otherwise.
@@ -210,6 +246,9 @@ func newHelperReturns(v ssa.Value) []ssa.Value {
 	call, idx, ok := CallResult(v)
 	if !ok {
 		return nil
+	}
+	if _, isTuple := v.Type().(*types.Tuple); isTuple {
+		return nil // the (a, b, …) tuple itself: each Extract is resolved on its own
 	}
 	h := CalleeFunc(&call.Call)
 	if h == nil || h.Blocks == nil || !IsRepoFunc(h) || !IsNewFunc(h) {
